@@ -7,6 +7,7 @@ R5 encoder / CLI wiring (determinism, `full` forwarding, alias target, decoder b
 from __future__ import annotations
 
 import ast
+from pathlib import PurePosixPath
 
 from sa.callgraph import CallGraph
 from sa.report import Ctx
@@ -239,6 +240,26 @@ def run(prog: Program, ctx: Ctx) -> None:  # noqa: PLR0912,PLR0915
             dsv = at(pth).attrs.get("docstring")
             gv = it.getattr(dsv, "value") if isinstance(dsv, Obj) else dsv
             ctx.ob("R2", f"docstring|{pth}", gv == wv, f"{pth}: written docstring {wv!r}, reloaded {gv!r} (an empty docstring is still a docstring: has_docstring, line span)", where(jd))
+
+    # the writer side: every member of an object is written, whatever it is (an unexpanded wildcard import is a member with a name, a target and a span)
+    M8 = "_griffe.models"
+
+    def new8(cls_name: str, *a: object, **k: object) -> Obj:
+        return it._construct(prog.cls(f"{M8}.{cls_name}"), list(a), dict(k))
+
+    try:
+        wm = new8("Module", "shop", filepath=PurePosixPath("/s/shop.py"))
+        smf = prog.lookup_method(wm.cls, "set_member")[0]
+        for mem in (new8("Attribute", "top", lineno=1, endlineno=1), new8("Alias", "imported", "os.path.join", lineno=2, endlineno=2),
+                    new8("Alias", "os/path/*", "os.path", lineno=3, endlineno=3), new8("Function", "f", lineno=4, endlineno=5), new8("Class", "K", lineno=6, endlineno=7)):
+            it.call(smf, wm, mem.attrs["name"], mem)
+        for full_ in (False, True):
+            written = it.call(prog.lookup_method(wm.cls, "as_dict")[0], wm, full=full_)
+            keys_ = sorted(written["members"]) if isinstance(written.get("members"), dict) else sorted(m_["name"] for m_ in written.get("members", []))
+            ctx.ob("R2", f"writer|every member written|full={full_}", keys_ == sorted(wm.attrs["members"]),
+                   f"Module.as_dict(full={full_}) writes members {keys_}; the module has {sorted(wm.attrs['members'])}", where(prog.lookup_method(wm.cls, "as_dict")[0]))
+    except Raised as r:
+        ctx.ob("R2", "writer|every member written", False, f"writing a small module raises {r.exc}", where(jd))
 
     def scope_of(e: object) -> str:
         """Scopes of all free names of an expression (one string when they agree); attribute chains must stay linked part to part."""
